@@ -147,7 +147,9 @@ def step (mtu : Nat) (s : PSt) (hb : ObuHeader × Bytes) : PSt :=
   let h := hb.1
   let need := needNew s.cur h
   let s : PSt :=
-    if s.pending.isEmpty then s
+    if s.pending.isEmpty then
+      -- nothing held back: nothing is flushed, but a requested packet break is remembered
+      if need then { s with startNew := true, cur := none } else s
     else
       let r := appendObu s.out s.pending s.newSeq need s.startNew mtu s.count
       let s := { s with out := r.1, count := r.2, pending := [], startNew := need }
